@@ -14,7 +14,7 @@ import z3
 
 from pyvc.interp import NORMAL, CollV, ExcV, Exit, Frame, SelfV, St
 from pyvc.sym import (B, I, NONE, S, BoolV, BuiltinV, BytesV, ClassV, CoroV, DictV, EventV, ExtV, FuncV, IntL, IntV, KwV, LockV, NoneV,
-                      ObjV, OptV, PlaceV, Ref, RefL, RefV, RegL, SemV, SeqV, SetL, SetV, StarV, StrV, TupleV, Unsupported, V, fresh,
+                      ObjV, OptV, PlaceV, Ref, RefL, RefV, RegL, SemV, SeqV, SetL, SetV, StarV, StrL, StrV, TupleV, Unsupported, V, fresh,
                       truthy)
 from pyvc.theory import ArrV, Iter, IterV, Theory, eq_value, havoc_like, same_value
 
@@ -577,7 +577,8 @@ class PoolTheory(Theory):
                 raise Unsupported("list() of " + type(pos_d[0]).__name__)
             for f_ in it.facts:
                 st.assume(f_)
-            lay = IntL() if it.seq.sort().range() == I else RefL()
+            rng = it.seq.sort().range()
+            lay = IntL() if rng == I else (StrL() if rng == S else RefL())
             return [(st, SeqV(it.count, [it.seq], lay, mutable=True))]
         if name == "next":
             it = pos_d[0].it if isinstance(pos_d[0], IterV) else None
